@@ -7,6 +7,9 @@ CHECKS = {
  "C01": dict(cat="translation_validation", sec="4 (C01)", technique="type-directed program generation (proptest choice vectors) + differential testing of compiled IR under lli against an independent reference interpreter; metamorphic layout variation; choice-vector shrinking",
    text="Each generated well-typed, terminating, UB-free program is printed in a plain and in a randomised layout, compiled through the real first-generation pipeline and executed with lli; full stdout and the exit status must equal the reference interpreter's for both layouts, and any rejection of a generated program is a failure.",
    note="Trusted: the reference interpreter (self-checked against native Rust arithmetic in the same check), lli-14, and the soundness of the generator's UB exclusion (re-checked by the interpreter; UB cases are discarded and counted)."),
+ "C03": dict(cat="translation_validation", sec="4 (C03)", technique="generated and corpus modules compiled through the real pipeline; emitted IR text validated by independent LLVM tools (opt -passes=verify, llvm-as) plus a definition/linkage scan against the generator's AST",
+   text="For every accepted module (generated executable and compile-only modules incl. extern heads/exports, never-returning functions, modules without main, wasm32; and every repository sample that compiles alone) the per-module IR and the linked IR must be accepted by opt-14 -passes=verify and llvm-as-14 as separate processes, define each source function exactly once, keep main/pub functions externally visible and declare function heads.",
+   note="Trusted: LLVM 14 tools as the definition of valid IR. Samples that crash the compiler are discarded here (C02's subject) and counted."),
  "C04": dict(cat="exploration", sec="4 (C04)", technique="exhaustive small-scope enumeration (ranking/unranking of statement trees) + random trees, decided against an independent reference model of reverse label scope; proptest shrinking",
    text="Every function body of <= 5 (quick) / <= 6 (thorough) statement nodes over labels, gotos, if-gotos, blocks and if/else blocks (plus random bodies of 40 nodes) is compiled; the exact multiset of E400/E420 and the verdict must equal the prediction of an independent model of 'forward and outward only'. Both directions: bad jumps rejected, good ones accepted.",
    note="Trusted: the label-scope model in harness/src/c04.rs (a restatement of docs/features.md). Exhaustive only within the stated size."),
